@@ -387,7 +387,7 @@ func c07Levels(tier string) []core.Level {
 			for a := 0; a < n; a++ {
 				for b := 0; b < n; b++ {
 					for c := 0; c < n; c += 1 {
-						if c >= 10 && c%7 != a%7 { // the third statement ranges over all leaves/calls and a residue class of the compounds
+						if c >= 10 && c%29 != (a+b)%29 { // the third statement ranges over all leaves/calls and a residue class of the compounds
 							continue
 						}
 						emit(core.Case{Fam: "prog", N: []int{1, 0, a, b, c}})
